@@ -47,7 +47,7 @@ type e1Scen struct {
 	Period  int    `json:"period,omitempty"`
 	Len     int    `json:"len,omitempty"` // periodic / long: number of writes
 	Query   string `json:"query,omitempty"`
-	FaultAt int    `json:"fault_at,omitempty"` // mode "fault": index (1-based) of the rotation whose next segment file cannot be created
+	FaultAt int    `json:"fault_at,omitempty"` // mode "fault": index (1-based) of the rotation whose next segment file cannot be created; "paramfault": of the first of two random-access units with unparsable parameter sets
 	Shard   int    `json:"shard"`
 	Shards  int    `json:"shards"`
 	Name    string `json:"name"`
@@ -354,6 +354,27 @@ func e1RunWordInner(sc e1Scen, word []sym, scratch string, props map[string]bool
 			}
 			continue
 		}
+		if sc.Mode == "paramfault" {
+			// input fault: random-access units number FaultAt and FaultAt+1 of the leading track carry parameter sets that
+			// cannot be parsed (the Write that has to build an init segment from them fails); the writer carries on
+			u := ws.unit(s)
+			if u.RA && u.Track == sc.Cfg.leading() {
+				rotations++
+				if rotations == sc.FaultAt || rotations == sc.FaultAt+1 {
+					u.Corrupt = true
+					r.faulted = true
+				}
+			}
+			if !r.apply(u) && !r.faulted {
+				r.add("ALL", "write-error", "write %d (%s) failed: %s", r.writeErrAt, s, r.writeErr)
+				return r, i, nil
+			}
+			after()
+			if len(r.viols) > 0 {
+				break
+			}
+			continue
+		}
 		if sc.Mode == "fault" {
 			// environment fault: the file of the next segment cannot be created at rotation number FaultAt
 			u := ws.peek(s)
@@ -588,7 +609,7 @@ func e1Explore(c *vh.Ctx, sc e1Scen) {
 				}
 			}
 		}
-	case "long", "fault", "partfault":
+	case "long", "fault", "partfault", "paramfault":
 		word := make([]sym, sc.Len)
 		for i := range word {
 			word[i] = sc.Alpha[i%len(sc.Alpha)]
